@@ -701,6 +701,28 @@ func (x *Exec) autoMeasure(s *ast.ForStmt) func(*State) Term {
 	}
 }
 
+// evalClause evaluates a loop clause; a clause that cannot be evaluated on the
+// code as it is now (it names a variable the loop no longer has, ...) becomes a
+// failed obligation of its own instead of taking the whole function out of the
+// verifiable subset: the rest of the contract is still checked.
+func (x *Exec) evalClause(env *SpecEnv, e SExpr, name, kind string, pos token.Pos, text string, report bool) (g Term, facts []Term, ok bool) {
+	defer func() {
+		if r := recover(); r != nil {
+			se, isSpec := r.(specError)
+			if !isSpec {
+				panic(r)
+			}
+			if report {
+				x.vc.obls = append(x.vc.obls, &Obligation{Name: x.vc.fn + "#" + name, Kind: kind, Func: x.vc.fn, Text: text,
+					Failed: "clause cannot be evaluated on this code: " + se.msg, Goal: tFalse, Pos: x.vc.ld.fset.Position(pos)})
+			}
+			ok = false
+		}
+	}()
+	g, facts = env.evalWithFacts(e)
+	return g, facts, true
+}
+
 // cutLoop implements the invariant cut: assert on entry, havoc, assume
 // invariant, run one iteration, assert invariant.
 func (x *Exec) cutLoop(st *State, ls *LoopSpec, id, label string, nodes []ast.Node,
@@ -710,13 +732,16 @@ func (x *Exec) cutLoop(st *State, ls *LoopSpec, id, label string, nodes []ast.No
 	for i, inv := range ls.Invariants {
 		parts := splitConj(inv.Expr)
 		for j, p := range parts {
-			g, facts := mkEnv(st).evalWithFacts(p)
-			for _, f := range facts {
-				st.assume(f)
-			}
 			name := fmt.Sprintf("inv-entry[loop%s.%d]", id, i)
 			if len(parts) > 1 {
 				name = fmt.Sprintf("inv-entry[loop%s.%d.%d]", id, i, j)
+			}
+			g, facts, ok := x.evalClause(mkEnv(st), p, name, "inv-entry", pos, inv.Text, true)
+			if !ok {
+				continue
+			}
+			for _, f := range facts {
+				st.assume(f)
 			}
 			x.obligeNamed(st, name, "inv-entry", g, pos, inv.Text)
 		}
@@ -814,7 +839,10 @@ func (x *Exec) cutLoop(st *State, ls *LoopSpec, id, label string, nodes []ast.No
 		}
 	}
 	for _, inv := range ls.Invariants {
-		g, facts := mkEnv(h).evalWithFacts(inv.Expr)
+		g, facts, ok := x.evalClause(mkEnv(h), inv.Expr, "", "inv-entry", pos, inv.Text, false)
+		if !ok {
+			continue // reported at the loop entry
+		}
 		for _, f := range facts {
 			h.assume(f)
 		}
@@ -875,13 +903,16 @@ func (x *Exec) cutLoop(st *State, ls *LoopSpec, id, label string, nodes []ast.No
 			for i, inv := range ls.Invariants {
 				parts := splitConj(inv.Expr)
 				for j, p := range parts {
-					g, facts := mkEnv(f.next).evalWithFacts(p)
-					for _, ft := range facts {
-						f.next.assume(ft)
-					}
 					name := fmt.Sprintf("inv-step[loop%s.%d]", id, i)
 					if len(parts) > 1 {
 						name = fmt.Sprintf("inv-step[loop%s.%d.%d]", id, i, j)
+					}
+					g, facts, ok := x.evalClause(mkEnv(f.next), p, name, "inv-step", pos, inv.Text, false)
+					if !ok {
+						continue // reported at the loop entry
+					}
+					for _, ft := range facts {
+						f.next.assume(ft)
 					}
 					x.obligeNamed(f.next.clone(), name, "inv-step", g, pos, inv.Text)
 				}
